@@ -666,6 +666,65 @@ def sub_rule(repo, res, tier, rule="SK-SUB"):
         first = stmts(wl.body)[0] if stmts(wl.body) else None
         ok = first is not None and first.kind == "if" and any("$char_index -ge ${#word}" in c.text for c in stmts(first.clauses[0][0]) if c.kind == "cond") and any(a[0] == "matched" and a[3] == "1" for s in stmts(first.clauses[0][1]) if s.kind == "simple" for a in B.assignments(s))
         rec("S5:matched-iff-consumed", ok, "matched=1 exactly when char_index reached the end of the word (or an any-word tail)", wl.line)
+        # S7: the matcher's own `||` levels are tried from 0 up to its own maximum (an inner `||` numbers its branches from 0 again,
+        # whatever level the word itself sits on in the caller)
+        lvl_loops = [n for n, *_ in B.walk(sub) if n.kind == "forarith" and "fallback_level" in n.header]
+        for lp_ in lvl_loops:
+            pr = [p.replace(" ", "") for p in lp_.parts]
+            m0 = re.fullmatch(r"(\w+)=0", pr[0]) if len(pr) == 3 else None
+            okl = bool(m0) and pr[1] == f"{m0.group(1)}<=max_fallback_level" and pr[2] in (f"{m0.group(1)}++", f"++{m0.group(1)}", f"{m0.group(1)}+=1")
+            rec("S7:levels-from-0-to-own-max", okl, f"for (( {lp_.header} ))" + ("" if okl else ": the within-word levels must be visited 0..=max_fallback_level ascending"), lp_.line)
+        # S8: every variable the shared matcher READS without setting it itself comes from the function that calls it (bash locals
+        # are dynamically scoped): each wrapper must declare all of them, or the completion function's variable of the same name --
+        # the top-level table, level bound, literal list -- is what the matcher works on
+        SPECIAL = {"COMP_WORDBREAKS", "COMP_WORDS", "COMP_CWORD", "COMP_LINE", "COMP_POINT", "COMPREPLY", "IFS", "BASH_REMATCH", "REPLY", "RANDOM", "HOME", "PWD", "LINENO", "FUNCNAME"}
+
+        def rw(fnode):
+            reads, sets_ = set(), set()
+            for n, *_ in B.walk(fnode):
+                if n.kind == "simple":
+                    for a in B.assignments(n):
+                        sets_.add(a[0])
+                    if n.words[:1] == ["eval"]:
+                        for m_ in re.finditer(r"(?:local |declare (?:-\w+ )?)?\b([A-Za-z_]\w*)=", " ".join(n.words[1:])):
+                            sets_.add(m_.group(1))
+                    if n.words[:1] in (["read"], ["mapfile"], ["readarray"]):
+                        sets_.update(w for w in n.words[1:] if re.fullmatch(r"[A-Za-z_]\w*", w))
+                    for w in n.words:
+                        reads.update(B.vars_in(w))
+                        reads.update(re.findall(r'-v "?([A-Za-z_]\w*)\[', w))
+                elif n.kind == "cond":
+                    reads.update(B.vars_in(n.text))
+                    reads.update(re.findall(r'-v "?([A-Za-z_]\w*)\[', n.text))
+                elif n.kind == "forarith":
+                    m_ = re.match(r"\s*([A-Za-z_]\w*)\s*=", n.parts[0]) if n.parts else None
+                    if m_:
+                        sets_.add(m_.group(1))
+                    reads.update(x for x in re.findall(r"[A-Za-z_]\w*", n.header))
+                elif n.kind == "for":
+                    sets_.add(n.var)
+                    for w in n.words:
+                        reads.update(B.vars_in(w))
+            return reads, sets_
+        reads, sets_ = rw(sub)
+        free = {v for v in reads - sets_ - SPECIAL if not v.startswith("H__")}
+        callers_of = lambda name: [(fname, fnode) for fname, lst in funcs.items() for fnode in lst if fname != name and any(n.kind == "simple" and n.words and n.words[0] == name for n, *_ in B.walk(fnode))]
+        direct = callers_of(SUB)
+        if not direct:
+            rec(f"S8:callers[{tag}]", False, "no function calls the within-word matcher", sub.line)
+        for fname, fnode in direct:
+            missing = free - rw(fnode)[1]
+            if missing:
+                ups = callers_of(fname)
+                ups = [(g, gn) for g, gn in ups if g != MAIN] or ups
+                still = set()
+                for g, gn in ups:
+                    still |= missing - rw(gn)[1]
+                if not ups:
+                    still = missing
+                missing = still
+            rec(f"S8:matcher-variables-declared-by:{fname}", not missing, f"declares every variable the matcher reads from its caller ({len(free)}: {sorted(free)})" if not missing else
+                f"the matcher reads {sorted(missing)} which neither it nor this caller declares: it then works on the completion function's variable of that name (the top-level table / bound)", fnode.line)
     for k, (ok, why, line) in sorted(agg.items()):
         res.check(ok, rule, k, why, f"bash skeleton line {line}")
 
